@@ -1,4 +1,5 @@
 import Rustic.Model.Restore
+import Rustic.Model.RestoreTasks
 import Rustic.Model.RestoreWalk
 import Driver.Util
 import Driver.C20
@@ -166,7 +167,8 @@ def handle : List String → String
       match old? with
       | none => "bad-op"
       | some o =>
-        match restoreFile { verify := v, sparse := s } o m (chunksOf n c) with
+        -- the writer-task model (`Model/RestoreTasks.lean`; = `restoreFile` by `restore_tasks_eq_segments`)
+        match restoreFileTasks { verify := v, sparse := s } o m (chunksOf n c) with
         | some b => "ok " ++ hex b
         | none => "ok absent"
     | _, _, _, _, _ => "bad-op"
